@@ -32,6 +32,7 @@ def check(run):
         from . import C01 as _C01, C03 as _C03, C05 as _C05
         b1 = run.borrow("C01", only=r"removeparam", why="a removeparam rule indexed under a token the URL lacks is never applied")
         run.guard("C14.via.C01.1.token-source", cfg, lambda: _C01.rule_removeparam_tokens(b1, F, cfg))
+        run.guard("C14.via.C01.1.token-source/sources", cfg, lambda: _C01.rule_token_sources(b1, F, cfg))
         b2 = run.borrow("C03", only=r"IS_REMOVEPARAM|negated-types-removed-last",
                         why="removeparam rules default to document / subdocument / xhr requests")
         run.guard("C14.via.C03.8.implicit-types", cfg, lambda: _C03.rule_implicit_types(b2, F, cfg))
@@ -40,6 +41,9 @@ def check(run):
         from . import C04 as _C04
         b4 = run.borrow("C04", only=r"removeparam|loop-runs", why="a removeparam rule must reach the removeparam list whatever else it carries")
         run.guard("C14.via.C04.1.routing", cfg, lambda: _C04.rule_routing(b4, F, cfg))
+        from . import C07 as _C07g
+        bg = run.borrow("C07", only=r"check_all", why="every matching rule of the list is collected by check_all")
+        run.guard("C14.via.C07.2.gate-shape", cfg, lambda: _C07g.rule_gate_shape(bg, F, cfg))
 
 
 def rule_pieces(run, F, cfg):
